@@ -36,6 +36,8 @@ import (
 	"github.com/NethermindEth/juno/core"
 	"github.com/NethermindEth/juno/core/felt"
 	"github.com/NethermindEth/juno/core/pending"
+	"github.com/NethermindEth/juno/db"
+	"github.com/NethermindEth/juno/db/memory"
 	_ "github.com/NethermindEth/juno/encoder/registry"
 	"github.com/NethermindEth/juno/feed"
 	"github.com/NethermindEth/juno/jsonrpc"
@@ -82,6 +84,35 @@ func (g *gatedReader) HeadsHeader() (*core.Header, error) {
 	return h, err
 }
 
+// l1GateStore is the node's key-value store; the ONE write it can hold back is the L1-head record
+// (core.WriteL1Head), so that the harness decides what happens between the feed send and the
+// database write of Blockchain.SetL1Head.
+type l1GateStore struct {
+	db.KeyValueStore
+	mu   stdsync.Mutex
+	hold chan struct{}
+}
+
+func (g *l1GateStore) Put(k, v []byte) error {
+	if bytes.Equal(k, db.L1Height.Key()) {
+		g.mu.Lock()
+		h := g.hold
+		g.hold = nil
+		g.mu.Unlock()
+		if h != nil {
+			<-h
+		}
+	}
+	return g.KeyValueStore.Put(k, v)
+}
+
+func (g *l1GateStore) arm() chan struct{} {
+	g.mu.Lock()
+	defer g.mu.Unlock()
+	g.hold = make(chan struct{})
+	return g.hold
+}
+
 // ---------------------------------------------------------------- fake gateway (feeder) status
 
 type fakeFeeder struct {
@@ -112,6 +143,7 @@ func (f *fakeFeeder) set(h *felt.Felt, st starknet.FinalityStatus) {
 
 type sut struct {
 	node    *chainkit.Node
+	gstore  *l1GateStore
 	reader  *gatedReader
 	synchro *sync.Synchronizer
 	storage *preconfirmed.ChainStorage
@@ -142,9 +174,10 @@ func privateField[T any](obj any, name string) (T, error) {
 }
 
 func newSUT(newState bool) (*sut, error) {
-	node := chainkit.NewNode(nil, newState)
+	gstore := &l1GateStore{KeyValueStore: memory.New()}
+	node := chainkit.NewNode(gstore, newState)
 	logger := log.NewNopZapLogger()
-	s := &sut{node: node, servers: map[string]*jsonrpc.Server{}, feeder: &fakeFeeder{status: map[felt.Felt]starknet.FinalityStatus{}}}
+	s := &sut{node: node, gstore: gstore, servers: map[string]*jsonrpc.Server{}, feeder: &fakeFeeder{status: map[felt.Felt]starknet.FinalityStatus{}}}
 	s.reader = &gatedReader{Blockchain: node.BC}
 	s.synchro = sync.New(node.BC, nil, logger, 0, false, node.Store)
 	var err error
